@@ -18,6 +18,7 @@ import (
 	"strings"
 
 	"go.starlark.net/starlark"
+	"go.starlark.net/starlarkstruct"
 	"go.starlark.net/syntax"
 
 	"verif/internal/driver"
@@ -44,7 +45,8 @@ func init() {
 			"verif/internal/gen renderer: the (line, rune column) it records for each token is the token's true position in the text it emits (validated separately against the repo corpus)",
 			"the generated program fails at the planted operation and nowhere earlier (wrappers only evaluate literals, bound int variables and total built-ins before it)",
 			"frame naming and the <builtin> position of built-in frames as documented in starlark/eval.go (frame.Position, CallFrame, EvalError.Backtrace)",
-			"for the callee frame of arity/recursion errors no position is demanded (no instruction of the callee has run); for slice, duplicate dict key, augmented index/attribute targets and load only containment in the operation's span is demanded",
+			"the callee frame of an arity/recursion error has run no instruction, so it reports Funcode.Position(0): the position attached to the callee's first emitted instruction, i.e. the def/lambda keyword (the compiler's initial position) unless the first emitted instruction is preceded by a setPos (identifier lookup); the generator builds such callees from templates with a known answer",
+			"x[i] op= y and x.f op= y: failing read and failing write-back are demanded at '[' / '.', a failing operator at op= (DESIGN section 9); for slice, duplicate dict key and load only containment in the operation's span is demanded",
 			"'not in' is identified by the position of 'in' (scanner convention adopted by gen.Render)",
 			"the line-table classes in the evidence are read from Program.Write output with a decoder written from the format comment in internal/compile/serial.go; they never take part in a verdict",
 		},
@@ -143,6 +145,22 @@ var env = starlark.StringDict{
 		return nil, fmt.Errorf("host error")
 	}),
 	"hostpos": hostPos{},
+	"flist":   frozenList(),
+	"fdict":   frozenDict(),
+	"rec":     starlarkstruct.FromStringDict(starlarkstruct.Default, starlark.StringDict{"a": starlark.MakeInt(1), "b": starlark.MakeInt(2)}),
+}
+
+func frozenList() starlark.Value {
+	l := starlark.NewList([]starlark.Value{starlark.MakeInt(1), starlark.MakeInt(2)})
+	l.Freeze()
+	return l
+}
+
+func frozenDict() starlark.Value {
+	d := starlark.NewDict(2)
+	d.SetKey(starlark.String("k"), starlark.MakeInt(1))
+	d.Freeze()
+	return d
 }
 
 func newThread(loadMode int, lib *starlark.Program) *starlark.Thread {
@@ -168,8 +186,6 @@ func (w *want) file() string {
 	case w.Span != nil:
 		s, _ := w.Span.Span()
 		return s.Filename()
-	case w.Def != nil:
-		return w.Def.Filename()
 	}
 	return progFile
 }
@@ -315,8 +331,6 @@ func (j *judge) wantText() []string {
 			out = append(out, fmt.Sprintf("%s@<builtin>:0:0", w.Name))
 		case w.Host:
 			out = append(out, fmt.Sprintf("%s@%s:%d:%d", w.Name, hostPosFile, hostPosLine, hostPosCol))
-		case w.Any:
-			out = append(out, fmt.Sprintf("%s@%s:(any position)", w.Name, w.file()))
 		case w.Pos != nil:
 			out = append(out, fmt.Sprintf("%s@%s:%d:%d", w.Name, w.Pos.Filename(), w.Pos.Line, w.Pos.Col))
 		default:
@@ -451,7 +465,7 @@ func (j *judge) check(err error, th *starlark.Thread, arm string) bool {
 	last := len(want) - 1
 	innermostStarlark := -1
 	for i := last; i >= 0; i-- {
-		if !want[i].Builtin && !want[i].Host && !want[i].Any {
+		if !want[i].Builtin && !want[i].Host {
 			innermostStarlark = i
 			break
 		}
@@ -471,14 +485,11 @@ func (j *judge) check(err error, th *starlark.Thread, arm string) bool {
 				j.violation("C16 built-in with a Position method: frame does not carry it"+arm, fmt.Sprintf("frame %d (%s)", i, w.Name), obs, ee.Msg)
 				good = false
 			}
-		case w.Any:
-			c.Count("frames_position_not_demanded", 1)
-			if o.File != w.file() {
-				j.violation("C16 wrong file in frame"+arm, fmt.Sprintf("frame %d (%s)", i, w.Name), obs, ee.Msg)
-				good = false
-			}
 		case w.Pos != nil:
 			c.Count("frames_exact_position_checked", 1)
+			if w.Callee {
+				c.Count("callee_frames_of_binding_errors_checked", 1)
+			}
 			if o.File != w.file() || o.Line != w.Pos.Line || o.Col != w.Pos.Col {
 				role := "caller frame (" + w.Role + ")"
 				if i == innermostStarlark {
@@ -660,7 +671,7 @@ func (j *judge) evidence(ee *starlark.EvalError, data, libData []byte) {
 	cc, lc := "-", "-"
 	for i := len(p.frames) - 1; i >= 0; i-- {
 		w := p.frames[i]
-		if w.Builtin || w.Host || w.Any {
+		if w.Builtin || w.Host || w.Callee {
 			continue
 		}
 		if w.Pos != nil {
